@@ -7,6 +7,7 @@ import (
 	"sort"
 	"strings"
 	"sync"
+	"sync/atomic"
 )
 
 // Sort of a term.
@@ -63,11 +64,18 @@ type Term struct {
 	key   string
 }
 
+const nShards = 512
+
+type shard struct {
+	mu    sync.Mutex
+	table map[string]*Term
+}
+
 var (
-	mu     sync.Mutex
-	table  = map[string]*Term{}
-	nextID = 1
+	shards [nShards]shard
+	nextID int64
 )
+
 
 func intern(t *Term) *Term {
 	var sb strings.Builder
@@ -80,15 +88,22 @@ func intern(t *Term) *Term {
 		fmt.Fprintf(&sb, ",%d", a.id)
 	}
 	k := sb.String()
-	mu.Lock()
-	defer mu.Unlock()
-	if o, ok := table[k]; ok {
+	h := uint32(2166136261)
+	for i := 0; i < len(k); i++ {
+		h = (h ^ uint32(k[i])) * 16777619
+	}
+	sh := &shards[h%nShards]
+	sh.mu.Lock()
+	defer sh.mu.Unlock()
+	if sh.table == nil {
+		sh.table = map[string]*Term{}
+	}
+	if o, ok := sh.table[k]; ok {
 		return o
 	}
-	t.id = nextID
-	nextID++
+	t.id = int(atomic.AddInt64(&nextID, 1))
 	t.key = k
-	table[k] = t
+	sh.table[k] = t
 	return t
 }
 
